@@ -36,4 +36,20 @@ def opEvent (j : Json) : P Json := do
     | k => throw s!"bad event kind {k}"
   | d => throw s!"bad dir {d}"
 
+/-- `eventlog`: {"events": [{"kind": k, "flags": [..]}, ..]} (calls of addEvent, oldest first) -> {"bytes": getEvents(), "n": len} -/
+def parseEvent (j : Json) : P Event := do
+  let f := (← fNats j "flags").map (· != 0)
+  let g := fun k => f.getD k false
+  match (← fStr j "kind") with
+  | "recv" => pure (Event.recv (g 0) (g 1) (g 2))
+  | "send" => pure (Event.send (g 0) (g 1) (g 2) (g 3) (g 4) (g 5))
+  | "listen" => pure Event.listenMode
+  | "restart" => pure Event.restart
+  | k => throw s!"bad event kind {k}"
+
+def opEventLog (j : Json) : P Json := do
+  let es ← (← (← fld j "events").getArr?).toList.mapM parseEvent
+  let log := runLog [] es
+  pure (Json.mkObj [("bytes", jNats (getEvents log)), ("n", jNat log.length)])
+
 end Driver
